@@ -3,7 +3,6 @@
 package signaller
 
 import (
-	"crypto/sha256"
 	"math/big"
 	"time"
 
@@ -53,9 +52,8 @@ func VerifC20Slot() {
 	vs.Assume(vs.And(vs.And(ts >= 0, ts < c20Clock), vs.And(interval > 0, interval < c20Clock)))
 
 	// by cases on the reference slot number (sha256 uninterpreted: every value below the offset is explored)
-	hashed := sha256.Sum256(append(val.Bytes(), sdk.Uint64ToBigEndian(uint64(ts))...))
-	k := uint64(vs.Pick("slot", int(dpOffset)))
-	vs.Fix(sdk.BigEndianToUint64(hashed[:])%dpOffset, k)
+	k := c20PickParallel("slot_bit", dpOffset)
+	vs.Fix(c20HashWord(val, ts)%dpOffset, k)
 
 	assigned := calculateAssignedTime(val, interval, ts, dpOffset, dpStart)
 	slotMin := ts + interval*int64(dpStart)/100
@@ -172,6 +170,21 @@ func VerifC20Deadline() {
 		time.Unix(btSec, 0).UTC(), 16*c20Clock, 0)
 	vs.Assert("no-miss-report-up-to-the-deadline", vs.Implies(btSec <= ts+interval, !miss))
 	vs.Reach("miss-report-one-second-after-the-deadline", vs.And(miss, btSec == ts+interval+1))
+}
+
+// c20PickParallel: a concrete value in [0, n) chosen by a binary tree of forks (vs.Pick forks as a chain, which
+// leaves one runnable path at a time).
+func c20PickParallel(label string, n uint64) uint64 {
+	k, bit := uint64(0), uint64(1)
+	for bit < n {
+		bit <<= 1
+	}
+	for bit >>= 1; bit > 0; bit >>= 1 {
+		if k+bit < n && vs.Bool(label) {
+			k += bit
+		}
+	}
+	return k
 }
 
 func c20Big(x int64) *big.Int { return big.NewInt(x) }
